@@ -69,7 +69,8 @@ _name_ok_cache = {}
 # words the lexer's dedicated rules treat specially and that are not in
 # every dictionary (static: the name filter must not depend on the lexer
 # under test, or a lexer defect would silently remove its own witnesses)
-SPECIAL_WORDS = {'ILIKE', 'RLIKE', 'REGEXP', 'GO', 'STRAIGHT', 'STRAIGHT_JOIN',
+SPECIAL_WORDS = {'ASC', 'DESC', 'ILIKE', 'RLIKE', 'REGEXP', 'GO', 'STRAIGHT',
+                 'STRAIGHT_JOIN',
                  'NULLS', 'LATERAL', 'EXPLODE', 'INLINE', 'POSEXPLODE',
                  'STACK', 'PARSE_URL_TUPLE', 'HANDLER', 'ZONE'}
 
